@@ -430,7 +430,7 @@ fn frame_case(out: &mut Out, rng: &mut Rng, thorough: bool) {
         vec![0xc1, 0x00],
     ];
     for f in frames {
-        let valid = f == vec![0x80, 0x03, 0x08, b'a', b'b', b'c'] || f == vec![0xff, 0x03, 0x08, b'a', b'b', b'c'] || f.len() <= 1 || f[0] & 0x80 == 0 || f == vec![0x80] || f == vec![0xc1, 0x00];
+        let valid = f == vec![0x80, 0x03, 0x08, b'a', b'b', b'c'] || f == vec![0xff, 0x03, 0x08, b'a', b'b', b'c'] || f.is_empty() || f[0] & 0x80 == 0 || f == vec![0xc1, 0x00];
         dec_line(out, valid, &f);
     }
     for _ in 0..10 {
@@ -451,9 +451,31 @@ fn frame_case(out: &mut Out, rng: &mut Rng, thorough: bool) {
     out.nontrivial(format!("frame-{}", rng.next() % 1000));
 }
 
+
+/// corpus files are offered to every stream of the property: a file whose header names another
+/// stream (`# property Cnn stream <name>`) is not for us → empty, successful run
+fn foreign_corpus(path: &std::path::Path, stream: &str) -> bool {
+    let txt = std::fs::read_to_string(path).expect("read replay");
+    for l in txt.lines() {
+        if let Some(rest) = l.strip_prefix("# property ") {
+            let ts: Vec<&str> = rest.split(' ').collect();
+            if ts.len() >= 3 && ts[1] == "stream" {
+                return ts[2] != stream;
+            }
+        }
+    }
+    false
+}
+
 pub fn run(opts: &Opts) {
     let stream = opts.extra.first().map(|s| s.as_str()).unwrap_or("cb").to_string();
     let mut out = Out::new(&opts.out);
+    if let Some(p) = &opts.replay {
+        if foreign_corpus(p, &stream) {
+            out.finish("corpus file of another stream");
+            return;
+        }
+    }
     let mut rng = Rng::new(opts.seed ^ 0xcb16);
     if stream == "frame" {
         std::panic::set_hook(Box::new(|_| {}));
@@ -474,7 +496,7 @@ pub fn run(opts: &Opts) {
                 }
             }
         } else {
-            let rounds = if opts.thorough() { 40 } else { 4 } * opts.scale;
+            let rounds = if opts.thorough() { 400 } else { 20 } * opts.scale;
             for r in 0..rounds {
                 frame_case(&mut out, &mut rng, opts.thorough() && r == 0);
             }
@@ -491,11 +513,12 @@ pub fn run(opts: &Opts) {
                 let ans = w.recon(&mut out, &l);
                 out.op(&l, &ans);
             } else {
-                panic!("C16 cb replay: unknown op {l}");
+                eprintln!("C16 cb replay: unknown op {l}");
+                std::process::exit(3);
             }
         }
     } else {
-        let cases = if opts.thorough() { 4000 } else { 400 } * opts.scale;
+        let cases = if opts.thorough() { 150000 } else { 6000 } * opts.scale;
         for _ in 0..cases {
             out.begin_case("recon");
             let l = gen_recon(&mut rng);
